@@ -61,21 +61,37 @@ Theorem C05_node_paints_is_source_arms : forall sel n, first_arm sel paint_loop_
 Proof. exact node_paints_is_source_arms. Qed.
 Print Assumptions C05_node_paints_is_source_arms.
 
-(* .. and the four collection loops contain no other condition than the Arc::ptr_eq tests and `if let Node::Group` *)
+(* .. and the four collection loops contain no other condition than the address tests (`seen.insert(Arc::as_ptr(x))`: true
+   exactly when no Arc with that address was pushed before, see Proofs/Collect.v) and `if let Node::Group` *)
 Theorem C05_collector_guards_as_modelled :
   collector_guards =
-  [("collect_clip_paths", ["let Node::Group(ref g) = node"; "!clip_paths.iter().any(|other| Arc::ptr_eq(c, other))";
-                           "let Node::Group(ref g) = node"]);
-   ("collect_masks", ["let Node::Group(ref g) = node"; "!masks.iter().any(|other| Arc::ptr_eq(m, other))";
-                      "let Node::Group(ref g) = node"]);
-   ("collect_filters", ["let Node::Group(ref g) = node"; "!filters.iter().any(|other| Arc::ptr_eq(filter, other))";
-                        "let Node::Group(ref g) = node"]);
-   ("collect_paint_servers", ["!self.linear_gradients.iter().any(|other| Arc::ptr_eq(lg, other))";
-                              "!self.radial_gradients.iter().any(|other| Arc::ptr_eq(rg, other))";
-                              "!self.patterns.iter().any(|other| Arc::ptr_eq(patt, other))"]);
+  [("collect_clip_paths", ["let Node::Group(ref g) = node"; "seen.insert(Arc::as_ptr(c))"; "let Node::Group(ref g) = node"]);
+   ("collect_masks", ["let Node::Group(ref g) = node"; "seen.insert(Arc::as_ptr(m))"; "let Node::Group(ref g) = node"]);
+   ("collect_filters", ["let Node::Group(ref g) = node"; "seen.insert(Arc::as_ptr(filter))"; "let Node::Group(ref g) = node"]);
+   ("collect_paint_servers", ["seen_lg.insert(Arc::as_ptr(lg))"; "seen_rg.insert(Arc::as_ptr(rg))";
+                              "seen_patt.insert(Arc::as_ptr(patt))"]);
    ("loop_over_paint_servers", ["let Some(paint) = paint"])]%string.
 Proof. exact collector_guards_as_modelled. Qed.
 Print Assumptions C05_collector_guards_as_modelled.
+
+(* .. and the address sets are the addresses of the lists: both start empty where the walk starts, the guarded insert is the
+   only operation on a set, the recursive calls hand list and set on unchanged *)
+Theorem C05_collector_seen_as_modelled :
+  map fst collector_seen = ["collect_clip_paths"; "collect_masks"; "collect_filters"; "collect_paint_servers";
+                            "loop_over_paint_servers"]%string
+  /\ map (fun r => List.length (snd r)) collector_seen = [4; 4; 4; 6; 0]%nat
+  /\ collector_calls =
+     ["tree.collect_paint_servers();";
+      "tree.root.collect_clip_paths(&mut tree.clip_paths, &mut HashSet::new());";
+      "tree.root.collect_masks(&mut tree.masks, &mut HashSet::new());";
+      "tree.root.collect_filters(&mut tree.filters, &mut HashSet::new());"]%string
+  /\ tree_list_inits =
+     ["clip_paths: Vec::new()"; "filters: Vec::new()"; "linear_gradients: Vec::new()"; "masks: Vec::new()";
+      "patterns: Vec::new()"; "radial_gradients: Vec::new()"]%string.
+Proof.
+  destruct collector_seen_as_modelled as (Hs & Hc & Hi). rewrite Hs. repeat split; try reflexivity; assumption.
+Qed.
+Print Assumptions C05_collector_seen_as_modelled.
 
 (* non-vacuity: a hidden path under a group, and a hidden path inside a pattern used by a hidden path; the three
    servers are used by nothing else and all three are collected *)
